@@ -292,8 +292,9 @@ def float_to_int(data, digits: Optional[Integer] = None) -> NDArray[np.int64]:
         return data
     elif data.dtype.kind in "iub" or data.size == 0:
         return data.astype(np.int64)
-    elif data.dtype.kind != "f":
-        # if it's not a floating point try to make it one
+    elif data.dtype != np.float64:
+        # scale in double precision: `float16` overflows to `inf`
+        # and `float32` merges neighbors when multiplied in place
         data = data.astype(np.float64)
 
     if digits is None:
